@@ -118,6 +118,15 @@ pub mod verif {
     #[cfg(not(feature = "crc32c"))]
     pub use crate::crc32::Crc32;
 
+    /// Work counter: bytes moved and values decoded by the reading code since the process started.
+    /// The verification harness reads it before and after a call to bound the work of that call.
+    pub static WORK: std::sync::atomic::AtomicU64 = std::sync::atomic::AtomicU64::new(0);
+
+    #[inline]
+    pub fn work_add(n: usize) {
+        WORK.fetch_add(n as u64, std::sync::atomic::Ordering::Relaxed);
+    }
+
     /// Number of bits one value of this data type occupies in its byte stream.
     pub fn bit_size(data_type: &crate::RecordDataType) -> usize {
         data_type.bit_size()
